@@ -461,10 +461,12 @@ def local_rules(ctx, prog):
         ag = calls_to(b, "AwaiterSet::advance_generation")
         npg = calls_to(b, "AwaiterSet::notify_one_prior_generation")
         n1 = calls_to(b, "AwaiterSet::notify_one")
-        ok = len(st_true) == 1 and len(ag) == 1 and len(npg) == 1 and not n1 and st_true[0][0] in dom[ag[0][0]] and \
-            ag[0][0] in dom[npg[0][0]] and b.in_loop(npg[0][0]) and not b.in_loop(ag[0][0])
+        # the flag and the generation bump are independent plain stores (no user code between them): either order is fine,
+        # both must be complete before the first waker runs
+        ok = len(st_true) == 1 and len(ag) == 1 and len(npg) == 1 and not n1 and st_true[0][0] in dom[npg[0][0]] and \
+            ag[0][0] in dom[npg[0][0]] and b.in_loop(npg[0][0]) and not b.in_loop(ag[0][0]) and not b.in_loop(st_true[0][0])
         ctx.ob("R8.local-manual-set", "flag-advance-drain-order", ok, b.loc(),
-               f"is_set.set(true) sites {len(st_true)} -> advance_generation {len(ag)} (outside loop) -> notify_one_prior_generation {len(npg)} (in loop); notify_one sites {len(n1)}")
+               f"is_set.set(true) sites {len(st_true)} and advance_generation {len(ag)} (both before the loop) -> notify_one_prior_generation {len(npg)} (in loop); notify_one sites {len(n1)}")
         if len(npg) == 1:
             nbb = npg[0][0]
             fwd = b.reachable(b.term_succ(nbb, False), unwind=False)
